@@ -79,6 +79,7 @@ package cache
 //@ immutable (cache).policy, (cache).clock, (cache).expiry, (cache).onEvictCallback, (cache).isSync, (cacheItem).key
 
 //@ func (*cache).Len
+//@   names c
 //@   facet C15
 //@   safety C15
 //@   opt no-frame
@@ -86,6 +87,7 @@ package cache
 //@   ensures [lock-released] c.mux == 0
 
 //@ func (*cache).Capacity
+//@   names c
 //@   facet C15
 //@   safety C15
 //@   opt no-frame
@@ -94,6 +96,7 @@ package cache
 //@   ensures result == pcap(c.policy)
 
 //@ func (*cache).Delete
+//@   names c, key
 //@   facet C15
 //@   safety C15
 //@   opt no-frame
@@ -106,6 +109,7 @@ package cache
 //@   ensures [delete-notifies-nobody] notes(c) == old(notes(c))
 
 //@ func (*cache).Get
+//@   names c, key
 //@   facet C15
 //@   safety C15
 //@   opt no-frame
@@ -121,6 +125,7 @@ package cache
 //@   ensures [invariant-kept] !old(c.closing) ==> cinv(c)
 
 //@ func (*cache).Set
+//@   names c, key, value
 //@   facet C15
 //@   safety C15
 //@   opt no-frame
@@ -138,6 +143,7 @@ package cache
 //@   ensures [evicted-entry-notified-with-its-value-sync] !old(c.closing) && !old(key in c.byKey) && old(c.size) == pcap(c.policy) && c.isSync ==> (forall k K :: k == cbk(c.onEvictCallback) ==> cbv(c.onEvictCallback) == old(c.byKey[k].value))
 
 //@ func (*cache).Close
+//@   names c
 //@   facet C15
 //@   safety C15
 //@   opt no-frame
@@ -155,6 +161,7 @@ package cache
 // the event goroutine: one callback per evict event received, with the key and value of the entry the event carries;
 // it stops at the close event (or when the channel is closed)
 //@ func (*cache).processEvents
+//@   names c
 //@   facet C15
 //@   safety C15
 //@   opt no-frame
@@ -163,6 +170,7 @@ package cache
 //@   ensures [one-callback-per-evict-event-received] cbn(c.onEvictCallback) - old(cbn(c.onEvictCallback)) == chrecvd(c.events) - old(chrecvd(c.events)) || (cbn(c.onEvictCallback) - old(cbn(c.onEvictCallback)) == chrecvd(c.events) - old(chrecvd(c.events)) - 1 && lastrecv(c.events).event == 1)
 
 //@ func (*cache).GetOrPanic
+//@   names c, key
 //@   facet C15
 //@   opt no-frame
 //@   requires c != nil && c.mux == 0
@@ -170,6 +178,7 @@ package cache
 
 // construction establishes the invariant
 //@ func (*builder).Build
+//@   names b
 //@   facet C15
 //@   safety C15
 //@   opt no-frame
@@ -190,6 +199,7 @@ package cache
 //@ impl policy by *lru separately
 
 //@ func (*lru).Init
+//@   names c, capacity
 //@   facet C15
 //@   safety C15
 //@   requires c != nil
@@ -198,18 +208,21 @@ package cache
 //@   ensures forall e ref :: elist(e) != c.evictList
 
 //@ func (*lru).Capacity
+//@   names c
 //@   facet C15
 //@   safety C15
 //@   requires c != nil
 //@   ensures result == c.cap
 
 //@ func (*lru).len
+//@   names c
 //@   facet C15
 //@   safety C15
 //@   requires c != nil && lruinv(c)
 //@   ensures result == llen(c.evictList)
 
 //@ func (*lru).Admit
+//@   names c, item
 //@   facet C15
 //@   safety C15
 //@   requires c != nil && lruinv(c) && item != nil && !(item in pset(c))
@@ -219,6 +232,7 @@ package cache
 //@   ensures [C15:lru-admitted-item-is-most-recent] forall it *cacheItem :: it in pset(c) && it != item ==> erank(item.parent) < erank(it.parent)
 
 //@ func (*lru).Access
+//@   names c, item
 //@   facet C15
 //@   safety C15
 //@   requires c != nil && lruinv(c) && item != nil && item in pset(c)
@@ -227,6 +241,7 @@ package cache
 //@   ensures [C15:lru-accessed-item-is-most-recent] forall it *cacheItem :: it in pset(c) && it != item ==> erank(item.parent) < erank(it.parent)
 
 //@ func (*lru).Remove
+//@   names c, item
 //@   facet C15
 //@   safety C15
 //@   requires c != nil && lruinv(c) && item != nil && item in pset(c)
@@ -235,6 +250,7 @@ package cache
 //@   ensures pset(c) == upd(old(pset(c)), item, false) && llen(c.evictList) == old(llen(c.evictList)) - 1
 
 //@ func (*lru).Victim
+//@   names c
 //@   facet C15
 //@   safety C15
 //@   requires c != nil && lruinv(c)
@@ -243,6 +259,7 @@ package cache
 //@   ensures [C15:lru-victim-is-least-recent] result != nil ==> (forall it *cacheItem :: it in pset(c) ==> erank(it.parent) <= erank(result.parent))
 
 //@ func (*lru).Close
+//@   names c
 //@   facet C15
 //@   safety C15
 //@   requires c != nil
@@ -259,6 +276,7 @@ package cache
 //@ impl policy by *slru separately
 
 //@ func (*slru).Init
+//@   names c, capacity
 //@   facet C15
 //@   safety C15
 //@   requires c != nil
@@ -267,12 +285,14 @@ package cache
 //@   ensures forall e ref :: elist(e) != c.probationList && elist(e) != c.protectedList
 
 //@ func (*slru).Capacity
+//@   names c
 //@   facet C15
 //@   safety C15
 //@   requires c != nil
 //@   ensures result == c.cap
 
 //@ func (*slru).Admit
+//@   names c, item
 //@   facet C15
 //@   safety C15
 //@   requires c != nil && slruinv(c) && item != nil && !(item in pset(c))
@@ -282,6 +302,7 @@ package cache
 //@   ensures [C15:slru-admits-to-probation-most-recent] inseg(item, c.probationList) && (forall it *cacheItem :: inseg(it, c.probationList) && it != item ==> erank(item.parent) < erank(it.parent))
 
 //@ func (*slru).Access
+//@   names c, item
 //@   facet C15
 //@   safety C15
 //@   requires c != nil && slruinv(c) && item != nil && item in pset(c)
@@ -295,6 +316,7 @@ package cache
 //@   ensures [C15:slru-protected-segment-stays-bounded] old(llen(c.protectedList)) <= c.protectedCapacity ==> llen(c.protectedList) <= c.protectedCapacity
 
 //@ func (*slru).Remove
+//@   names c, item
 //@   facet C15
 //@   safety C15
 //@   requires c != nil && slruinv(c) && item != nil && item in pset(c)
@@ -303,6 +325,7 @@ package cache
 //@   ensures pset(c) == upd(old(pset(c)), item, false) && llen(c.probationList) + llen(c.protectedList) == old(llen(c.probationList) + llen(c.protectedList)) - 1
 
 //@ func (*slru).Victim
+//@   names c
 //@   facet C15
 //@   safety C15
 //@   requires c != nil && slruinv(c)
@@ -312,6 +335,7 @@ package cache
 //@   ensures [C15:slru-victim-from-protected-when-probation-empty] result != nil && llen(c.probationList) == 0 ==> inseg(result, c.protectedList) && (forall it *cacheItem :: inseg(it, c.protectedList) ==> erank(it.parent) <= erank(result.parent))
 
 //@ func (*slru).Close
+//@   names c
 //@   facet C15
 //@   safety C15
 //@   requires c != nil
@@ -325,6 +349,7 @@ package cache
 //@ impl policy by *tinyLFU separately
 
 //@ func (*tinyLFU).Init
+//@   names c, capacity
 //@   facet C15
 //@   safety C15
 //@   opt no-frame
@@ -332,12 +357,14 @@ package cache
 //@   ensures tlfuinv(c) && c.cap == capacity && pcount(c) == 0
 
 //@ func (*tinyLFU).Capacity
+//@   names c
 //@   facet C15
 //@   safety C15
 //@   requires c != nil
 //@   ensures result == c.cap
 
 //@ func (*tinyLFU).Admit
+//@   names c, item
 //@   facet C15
 //@   safety C15
 //@   opt no-frame
@@ -346,6 +373,7 @@ package cache
 //@   ensures pset(c) == upd(old(pset(c)), item, true) && pcount(c) == old(pcount(c)) + 1
 
 //@ func (*tinyLFU).Access
+//@   names c, item
 //@   facet C15
 //@   safety C15
 //@   opt no-frame
@@ -355,6 +383,7 @@ package cache
 //@   ensures pset(c) == old(pset(c)) && pcount(c) == old(pcount(c))
 
 //@ func (*tinyLFU).Remove
+//@   names c, item
 //@   facet C15
 //@   safety C15
 //@   opt no-frame
@@ -364,6 +393,7 @@ package cache
 //@   ensures pset(c) == upd(old(pset(c)), item, false) && pcount(c) == old(pcount(c)) - 1
 
 //@ func (*tinyLFU).Victim
+//@   names c
 //@   facet C15
 //@   safety C15
 //@   opt no-frame
@@ -374,6 +404,7 @@ package cache
 //@   ensures result != nil ==> result in pset(c)
 
 //@ func (*tinyLFU).Close
+//@   names c
 //@   facet C15
 //@   safety C15
 //@   opt no-frame
